@@ -48,9 +48,14 @@ cases, meta, hist = [], [], {}
 ok_runs = 0
 
 
-def run(kind, schema, zslots, ttl=172800, desc=None, strict=True, mods=None, ksks=None):
+def run(kind, schema, zslots, ttl=172800, desc=None, strict=True, mods=None, ksks=None, odd=None):
     global ok_runs
+    if odd is not None:
+        # identifiers are opaque text: any legal XML character may occur in them (line and paragraph separators, NEL, non-ASCII letters, inner blanks)
+        zslots = [[dict(k, id=k["id"][:3] + odd + k["id"][3:]) for k in ks] for ks in zslots]
     rq = skrgen.honest_request(f"req-{R.randrange(10**6)}", NOW, len(zslots), zslots, ksrxml.default_zsk_policy(), sign=True)
+    if odd is not None:
+        rq["bundles"] = [dict(b, id=f"b{j}{odd}-{R.randrange(10**5)}") for j, b in enumerate(rq["bundles"])]
     rq["serial"] = R.randrange(1000)
     sc = {"modules": mods or MODS, "ksks": ksks or KSKS, "schema": schema, "request": rq, "ttl": ttl, "strict": strict}
     r = S.run_sign(sc)
@@ -146,6 +151,9 @@ for pad in (1, 3):
                                               2: {"publish": ["ksk_b"], "sign": ["ksk_a", "ksk_b"], "revoke": ["ksk_a"]}}, [[Z[0]], [Z[0]]], mods=mods_p, desc={"leading_zero_octets": pad})
 for t_ in (0, 1, 2**31 - 1):
     run("configured-ttl", {1: {"publish": ["ksk_a"], "sign": ["ksk_a"], "revoke": []}}, [[Z[0]]], ttl=t_)
+for odd_ in ("\u2028", "\u2029", "\u0085", "\u00e9\u4e2d", " ", "\u00a0", "\u2028\u2029x"):
+    run("odd-identifier-characters", {1: {"publish": ["ksk_a", "ksk_b"], "sign": ["ksk_a"], "revoke": []}, 2: {"publish": ["ksk_b"], "sign": ["ksk_a", "ksk_b"], "revoke": ["ksk_a"]}},
+        [[Z[0], Z[1]], [Z[1]]], odd=odd_, desc={"identifier_contains": ascii(odd_)})
 # schema missing a slot
 run("schema-missing-slot", {1: {"publish": ["ksk_a"], "sign": ["ksk_a"], "revoke": []}}, [[Z[0]], [Z[0]]])
 
